@@ -40,6 +40,9 @@ type Origin struct {
 	resources map[string]string
 	// Decide chooses the fault (and a parameter) for a request to path.
 	Decide func(path string) (f Fault, param int)
+	// NoLength, if set, decides whether a 200 response to path is sent without
+	// an announced length (chunked or close-delimited transfer).
+	NoLength func(path string) (ok bool)
 	// OnChunk, if set, is called between the chunks of a slow body.
 	OnChunk func(path string)
 	// Log of requests served: "path fault".
@@ -75,7 +78,12 @@ func (o *Origin) RoundTrip(req *http.Request) (resp *http.Response, err error) {
 	o.Requests = append(o.Requests, path+" "+Names[f])
 	o.mu.Unlock()
 
+	noLen := f != ConnError && f != Stall && f != NotFound && f != ServerError && o.NoLength != nil && o.NoLength(path)
 	mk := func(code int, body io.ReadCloser, n int64) *http.Response {
+		if noLen {
+			n = -1
+		}
+
 		return &http.Response{
 			Status:        fmt.Sprintf("%d %s", code, http.StatusText(code)),
 			StatusCode:    code,
